@@ -485,3 +485,142 @@ def discovery_search_scenarios():
                             out[k] = False
                             detail.append((g, unicast, first, n_answers, k[:40]))
     return out, detail[:6]
+
+
+# ------------------------------------------------------------------------------------------------ drain (targeted)
+
+def drain_scenarios():
+    """Deterministic schedules for the drain obligations: two sends in flight under back-pressure, an entry that
+    expires while an earlier write is parked, an entry expiring exactly at the instant of the write, repeated write
+    faults on one idempotent message, a write fault on a message without retries."""
+    import pyairtouch.at4.comms.x2A_group_ctrl as gc
+    R, acs, gs = _at4()
+    out = {}
+
+    def msg(k):
+        return gc.GroupControlMessage(group_number=k % 16, power=gc.GroupPowerControl.UNCHANGED,
+                                      control_method=gc.GroupControlMethod.UNCHANGED, setting=gc.GroupDamperControl(open_percentage=k // 16))
+
+    def tickets(net):
+        from replay.history_fuzz import parse_frames
+        seq = []
+        for name in net.opened:
+            w = net.writers[name]
+            frames, clean = parse_frames(R, bytes(w.data))
+            offs, acc = [], 0
+            for b, t in zip(w.writes, w.write_times):
+                offs.append((acc, t))
+                acc += len(b)
+            for pos, hdr, m in frames:
+                seq.append((max(tt for o, tt in offs if o <= pos), m.group_number + 16 * m.setting.open_percentage, name))
+        return seq
+
+    # (a) two sends in flight while drain() is parked: each frame once, in order
+    async def two_in_flight(loop, net):
+        S, sock = _sock(loop, R)
+        await sock.open_socket()
+        await asyncio.sleep(0.1)
+        gate = asyncio.Event()
+        sock._writer.drain_gate = gate
+        errs = []
+        ts = [loop.create_task(sock.send(msg(k), S.RETRY_IDEMPOTENT)) for k in (1, 2, 3)]
+        await asyncio.sleep(0.05)
+        gate.set()
+        await asyncio.sleep(0.5)
+        for t in ts:
+            if t.done() and t.exception() is not None:
+                errs.append(type(t.exception()).__name__)
+        await sock.close()
+        return errs
+    errs, net, _ = vloop.run(two_in_flight)
+    seq = [k for _, k, _ in tickets(net)]
+    out["the entry is taken off the queue before its write can suspend (a concurrent drain cannot transmit it a second time)"] = seq == [1, 2, 3] and not errs
+
+    # (b) an entry expires while an earlier write is parked / exactly at the write instant
+    async def expiry(loop, net):
+        S, sock = _sock(loop, R)
+        net.default = ("accept", 1.0)              # the connection completes exactly 1.0 s after open
+        await sock.open_socket()
+        await asyncio.sleep(0)
+        t0 = loop.time()
+        await sock.send(msg(10), S.RETRY_IDEMPOTENT)          # 30 s
+        await sock.send(msg(11), S.RETRY_CONNECTED)           # expires at t0 + 1.0: the instant the connection is there
+        await asyncio.sleep(2.0)
+        # now park a write for 2 s with a 1 s message behind it
+        gate = asyncio.Event()
+        sock._writer.drain_gate = gate
+        a = loop.create_task(sock.send(msg(12), S.RETRY_IDEMPOTENT))
+        await asyncio.sleep(0.01)
+        b = loop.create_task(sock.send(msg(13), S.RETRY_CONNECTED))   # queued behind the parked write? no: its own drain
+        await asyncio.sleep(2.0)
+        gate.set()
+        await asyncio.sleep(0.5)
+        await sock.close()
+        return t0
+    t0, net, _ = vloop.run(expiry)
+    seq = tickets(net)
+    out["an entry whose lifetime has elapsed is never written"] = 11 not in [k for _, k, _ in seq]
+    out["an unexpired head entry is written"] = 10 in [k for _, k, _ in seq] and 12 in [k for _, k, _ in seq]
+
+    # (b2) queued behind a parked write while connecting: the later entry is tested against the time of *its* write
+    async def stale_clock(loop, net):
+        S, sock = _sock(loop, R)
+        net.default = ("accept", 0.5)
+        orig = net.open_connection
+
+        async def gated(host=None, port=None, **kw):
+            rd, wr = await orig(host, port, **kw)
+            wr.drain_gate = asyncio.Event()             # the first write of the connect-time drain parks for 2 s
+            loop.call_later(2.0, wr.drain_gate.set)
+            return rd, wr
+        asyncio.open_connection = gated
+        await sock.open_socket()
+        await asyncio.sleep(0)
+        await sock.send(msg(20), S.RETRY_IDEMPOTENT)
+        await sock.send(msg(21), S.RETRY_CONNECTED)           # 1 s: expired by the time the parked write returns (2.5 s)
+        await asyncio.sleep(6.0)
+        await sock.close()
+    _, net, _ = vloop.run(stale_clock)
+    out["an entry whose lifetime has elapsed is never written"] = out["an entry whose lifetime has elapsed is never written"] and 21 not in [k for _, k, _ in tickets(net)]
+
+    # (c) repeated write faults on one idempotent message; a write fault on a message without retries
+    async def faults(loop, net):
+        S, sock = _sock(loop, R)
+        orig = net.open_connection
+        n = {"c": 0}
+
+        async def failing(host=None, port=None, **kw):
+            rd, wr = await orig(host, port, **kw)
+            n["c"] += 1
+            if n["c"] <= 5:
+                wr.fail_drain_after = 1               # the first write on each of the first five connections meets a dead link
+            return rd, wr
+        asyncio.open_connection = failing
+        await sock.open_socket()
+        await asyncio.sleep(0.1)
+        await sock.send(msg(30), S.RETRY_IDEMPOTENT)
+        await asyncio.sleep(10.0)
+        resets_before = len(net.opened)
+        await sock.close()
+        return resets_before
+    _, net, _ = vloop.run(faults)
+    c30 = [k for _, k, _ in tickets(net)].count(30)
+    out["re-queued entry: same header, message and expiry, one retry less"] = c30 == 3
+    out["no retries left: the entry is dropped, not re-queued"] = c30 == 3
+    out["a failed entry with retries left is put back at the head of the queue"] = c30 >= 2
+
+    async def fault_no_retry(loop, net):
+        S, sock = _sock(loop, R)
+        await sock.open_socket()
+        await asyncio.sleep(0.1)
+        sock._writer.fail_drain_after = 1
+        await sock.send(msg(40), S.RETRY_NON_IDEMPOTENT)
+        await asyncio.sleep(5.0)
+        r = (len(net.opened), sock.is_connected, net.open_unclosed())
+        await sock.close()
+        return r
+    (conns, connected, unclosed), net, _ = vloop.run(fault_no_retry)
+    out["the connection is reset if and only if the write met a transport error - whatever retries the entry has left "
+        "(a half-open link is never kept, and an encoding error or a good write never costs the link)"] = conns == 2 and connected and len(unclosed) == 1
+    out["a transport error resets the connection exactly once"] = conns == 2
+    return out
